@@ -17,10 +17,23 @@ Import ListNotations.
 EXC = {'TypeError': 0, 'ValueError': 1}
 
 
-def make_ds(Dataset, shape, kinds):
+def make_ds(Dataset, shape, kinds, layout='C'):
     size = int(np.prod(shape)) if shape else 1
     value = np.arange(size, dtype=float).reshape(shape)
     error = value + 1000.
+    if layout == 'F':                     # same logical content, Fortran memory order
+        value, error = np.asfortranarray(value), np.asfortranarray(error)
+    elif layout == 'T' and len(shape) >= 2:   # transposed view of a C array
+        value = np.ascontiguousarray(value.T).T
+        error = np.ascontiguousarray(error.T).T
+    elif layout == 'S':                   # strided view (every second cell of a larger buffer)
+        big = np.zeros(tuple(2 * n for n in shape))
+        view = big[tuple(slice(None, None, 2) for _ in shape)]
+        view[...] = value
+        bige = np.zeros(tuple(2 * n for n in shape))
+        viewe = bige[tuple(slice(None, None, 2) for _ in shape)]
+        viewe[...] = error
+        value, error = view, viewe
     bins = None
     if kinds is not None:
         bins = OrderedDict()
@@ -140,6 +153,9 @@ def gen_cases(ctx):
             for a, b in itertools.product(bounds, bounds):
                 cases.append({'shape': [n], 'kinds': None if kind is None else [kind],
                               'ops': [['get', [[a, b]]]]})
+                if n <= 3 or (a is not None and a < 0):
+                    cases.append({'shape': [n], 'kinds': None if kind is None else [kind],
+                                  'ops': [['get', [[a, b]]]], 'step1': True})
     ctx.count('exhaustive_1d', len(cases) - 7)
     # random n-d chains
     nrand = 500 if quick else 12000
@@ -165,14 +181,19 @@ def gen_cases(ctx):
                     idx.append([bound(), bound()])
                 ops.append(['get', idx])
                 cur = [len(range(n)[slice(a, b)]) for n, (a, b) in zip(cur, idx)]
-        cases.append({'shape': shape, 'kinds': kinds, 'ops': ops})
+        case = {'shape': shape, 'kinds': kinds, 'ops': ops}
+        if rng.random() < 0.3:
+            case['step1'] = True
+        if rng.random() < 0.4:
+            case['layout'] = rng.choice('FTS')
+        cases.append(case)
     ctx.count('random_nd_chains', nrand)
     return cases
 
 
 def run_impl(ctx, case, triples):
     from valjean.eponine.dataset import Dataset
-    d = make_ds(Dataset, tuple(case['shape']), case['kinds'])
+    d = make_ds(Dataset, tuple(case['shape']), case['kinds'], case.get('layout', 'C'))
     nontrivial = False
     for op in case['ops']:
         before = snap(d)
@@ -180,7 +201,8 @@ def run_impl(ctx, case, triples):
             if op[0] == 'squeeze':
                 out = d.squeeze()
             else:
-                idx = tuple(slice(a, b) for a, b in op[1])
+                # explicit unit step (d[a:b:1]) must behave like the omitted one
+                idx = tuple(slice(a, b, 1) if case.get('step1') else slice(a, b) for a, b in op[1])
                 out = d[idx if len(idx) != 1 else idx[0]]
         except Exception as exc:  # noqa
             out = exc
